@@ -32,7 +32,7 @@ func cbBelongs(prop string, mm *cbMismatch) bool {
 
 func init() {
 	common := []string{"frozen library clock (hook)", "CircuitBreaker.String() is read only at quiescent points (no request is inside the breaker's own code)",
-		"steps at which the statement leaves freedom are not decided: float equality in the ramp, a completion at exactly the last check instant, metric windows with samples 9-10s old, latency quantiles within HDR precision or of rank 0"}
+		"steps at which the statement leaves freedom are not decided: float equality in the ramp, a completion at exactly the last check instant, metric windows with samples 9-10s old (counters), latency samples of 50s and older (they may or may not have left the rolling histogram of 6 x 10s), latency quantiles within HDR precision or of rank 0"}
 	register(&Property{
 		ID:    "C05",
 		Level: "exploration",
